@@ -1,4 +1,4 @@
-import JjModel.Lemmas.IdPrefixResolve
+import JjModel.Lemmas.IdIndexTable
 import JjModel.Lemmas.IndexGca
 /-!
   Lemmas for C20, part 3: the `AncestorsBitSet` sweep, change-id resolution over stacked
@@ -339,30 +339,11 @@ theorem resolveChangePrefix_ambiguous (segs : List Seg) (p x y : Id)
 
 /-! ### the disambiguation index -/
 
-theorem foldl_max_spec (l : List Nat) (init : Nat) :
-    init ≤ l.foldl max init ∧ (∀ x ∈ l, x ≤ l.foldl max init) ∧ (l.foldl max init = init ∨ l.foldl max init ∈ l) := by
-  induction l generalizing init with
-  | nil => simp
-  | cons a l ih =>
-    simp only [List.foldl_cons]
-    obtain ⟨h1, h2, h3⟩ := ih (max init a)
-    refine ⟨by omega, ?_, ?_⟩
-    · intro x hx
-      rcases List.mem_cons.mp hx with rfl | hx'
-      · omega
-      · exact h2 x hx'
-    · rcases h3 with h | h
-      · by_cases hc : init ≥ a
-        · left; rw [h]; omega
-        · right; rw [h]; have : max init a = a := by omega
-          rw [this]; simp
-      · right; simp [h]
-
 theorem idIndexShortest_spec {keys : List Id} {key : Id} (hk : key ∈ keys) :
-    ∃ L, idIndexShortest keys key = some L ∧ 1 ≤ L ∧
+    ∃ L, idIndexShortestSpec keys key = some L ∧ 1 ≤ L ∧
       (∀ k ∈ keys, k ≠ key → commonLen key k + 1 ≤ L) ∧
       (L = 1 ∨ ∃ k ∈ keys, k ≠ key ∧ commonLen key k + 1 = L) := by
-  unfold idIndexShortest
+  unfold idIndexShortestSpec
   have hc : keys.contains key = true := List.contains_iff_mem.mpr hk
   simp only [hc, if_true]
   obtain ⟨h1, h2, h3⟩ := foldl_max_spec ((keys.filter (· != key)).map fun k => commonLen key k + 1) 1
@@ -377,8 +358,8 @@ theorem idIndexShortest_spec {keys : List Id} {key : Id} (hk : key ∈ keys) :
       obtain ⟨hkk, hne⟩ := List.mem_filter.mp hkf
       exact ⟨k, hkk, by simpa using hne, he⟩
 
-theorem idIndexShortest_none {keys : List Id} {key : Id} (hk : ¬ key ∈ keys) : idIndexShortest keys key = none := by
-  unfold idIndexShortest
+theorem idIndexShortest_none {keys : List Id} {key : Id} (hk : ¬ key ∈ keys) : idIndexShortestSpec keys key = none := by
+  unfold idIndexShortestSpec
   have hc : keys.contains key = false := by
     cases h : keys.contains key with
     | false => rfl
@@ -387,72 +368,45 @@ theorem idIndexShortest_none {keys : List Id} {key : Id} (hk : ¬ key ∈ keys) 
 
 theorem idIndexResolve_unique {keys : List Id} {p key : Id} (hp : p ≠ []) (hk : key ∈ keys)
     (hm : matchesPrefix p key = true) (honly : ∀ k ∈ keys, matchesPrefix p k = true → k = key) :
-    idIndexResolve keys p = .single key := by
-  unfold idIndexResolve
+    idIndexResolveSpec keys p = .single key := by
+  unfold idIndexResolveSpec
   simp only [hp, if_false]
-  have hmem : key ∈ keys.filter (matchesPrefix p) := List.mem_filter.mpr ⟨hk, hm⟩
-  have hall : ∀ k ∈ keys.filter (matchesPrefix p), k = key := fun k hkf =>
-    honly k (List.mem_filter.mp hkf).1 (List.mem_filter.mp hkf).2
-  cases hM : keys.filter (matchesPrefix p) with
-  | nil => rw [hM] at hmem; simp at hmem
-  | cons k rest =>
-    rw [hM] at hall
-    have hk0 : k = key := hall k (by simp)
-    subst hk0
-    have : rest.all (· == k) = true := by
-      apply List.all_eq_true.mpr
-      intro x hx
-      simp [hall x (by simp [hx])]
-    simp [this]
+  apply collect_single.mpr
+  refine ⟨fun h => ?_, fun x hx => honly x (List.mem_filter.mp hx).1 (List.mem_filter.mp hx).2⟩
+  have : key ∈ keys.filter (matchesPrefix p) := List.mem_filter.mpr ⟨hk, hm⟩
+  rw [h] at this; simp at this
 
 theorem idIndexResolve_none {keys : List Id} {p : Id} (hp : p ≠ [])
-    (hno : ∀ k ∈ keys, matchesPrefix p k = false) : idIndexResolve keys p = .noMatch := by
-  unfold idIndexResolve
+    (hno : ∀ k ∈ keys, matchesPrefix p k = false) : idIndexResolveSpec keys p = .noMatch := by
+  unfold idIndexResolveSpec
   simp only [hp, if_false]
-  have : keys.filter (matchesPrefix p) = [] := by
-    apply List.filter_eq_nil_iff.mpr
-    intro k hk hm; rw [hno k hk] at hm; cases hm
-  rw [this]
+  apply collect_noMatch.mpr
+  apply List.filter_eq_nil_iff.mpr
+  intro k hk hm; rw [hno k hk] at hm; cases hm
 
 theorem idIndexResolve_two {keys : List Id} {p a b : Id} (ha : a ∈ keys) (hb : b ∈ keys) (hne : a ≠ b)
-    (hma : matchesPrefix p a = true) (hmb : matchesPrefix p b = true) : idIndexResolve keys p = .ambiguous := by
-  unfold idIndexResolve
+    (hma : matchesPrefix p a = true) (hmb : matchesPrefix p b = true) : idIndexResolveSpec keys p = .ambiguous := by
+  unfold idIndexResolveSpec
   split
   · rfl
   · have hma' : a ∈ keys.filter (matchesPrefix p) := List.mem_filter.mpr ⟨ha, hma⟩
     have hmb' : b ∈ keys.filter (matchesPrefix p) := List.mem_filter.mpr ⟨hb, hmb⟩
-    cases hM : keys.filter (matchesPrefix p) with
-    | nil => rw [hM] at hma'; simp at hma'
-    | cons k rest =>
-      rw [hM] at hma' hmb'
-      simp only
-      by_cases hall : rest.all (· == k) = true
-      · have hall' := List.all_eq_true.mp hall
-        have e1 : a = k := by
-          rcases List.mem_cons.mp hma' with h | h
-          · exact h
-          · simpa using hall' a h
-        have e2 : b = k := by
-          rcases List.mem_cons.mp hmb' with h | h
-          · exact h
-          · simpa using hall' b h
-        exact absurd (e1.trans e2.symm) hne
-      · simp [hall]
+    cases hc : collect (keys.filter (matchesPrefix p)) with
+    | noMatch => rw [collect_noMatch.mp hc] at hma'; simp at hma'
+    | single k =>
+      obtain ⟨_, hall⟩ := collect_single.mp hc
+      exact absurd ((hall a hma').trans (hall b hmb').symm) hne
+    | ambiguous => rfl
 
-theorem idIndexResolve_single_mem {keys : List Id} {p k : Id} (h : idIndexResolve keys p = .single k) :
+theorem idIndexResolve_single_mem {keys : List Id} {p k : Id} (h : idIndexResolveSpec keys p = .single k) :
     k ∈ keys ∧ matchesPrefix p k = true := by
-  unfold idIndexResolve at h
+  unfold idIndexResolveSpec at h
   split at h
   · cases h
-  · cases hM : keys.filter (matchesPrefix p) with
-    | nil => rw [hM] at h; cases h
-    | cons k0 rest =>
-      rw [hM] at h
-      simp only at h
-      split at h
-      · cases h
-        have : k ∈ keys.filter (matchesPrefix p) := by rw [hM]; simp
-        exact ⟨(List.mem_filter.mp this).1, (List.mem_filter.mp this).2⟩
-      · cases h
+  · obtain ⟨hne, hall⟩ := collect_single.mp h
+    obtain ⟨x, hx⟩ := List.exists_mem_of_ne_nil _ hne
+    have := hall x hx
+    subst this
+    exact ⟨(List.mem_filter.mp hx).1, (List.mem_filter.mp hx).2⟩
 
 end JjModel.IdPrefix
